@@ -27,6 +27,8 @@ from .values import (
     norm_number,
     native_result,
     to_integer,
+    to_array_length,
+    MAX_STRING_LENGTH,
     clamp_index,
     relative_index,
     JS_WHITESPACE,
@@ -193,8 +195,9 @@ class VM:
 
         try:
             return self._execute()
-        except Exception as e:
-            raise
+        except MemoryError:
+            # The host ran out of memory before the approximate accounting noticed
+            raise MemoryLimitError("Memory limit exceeded: allocation failed")
 
     def _check_limits(self) -> None:
         """Check memory and time limits."""
@@ -2089,6 +2092,10 @@ class VM:
             count = to_integer(arg(args, 0))
             if count < 0 or count == float("inf"):
                 raise JSRangeError("Invalid count value")
+            if len(s) * count > MAX_STRING_LENGTH:
+                raise JSRangeError("Invalid string length")
+            if self.memory_limit and len(s) * count > self.memory_limit:
+                raise MemoryLimitError("Memory limit exceeded")
             return s * int(count)
 
         def search_string(args, what):
@@ -2292,7 +2299,9 @@ class VM:
         if isinstance(obj, JSArray):
             # Special handling for length property
             if key_str == "length":
-                new_len = int(to_number(value))
+                new_len = to_array_length(value)
+                if self.memory_limit and (new_len - obj.length) * 8 > self.memory_limit:
+                    raise MemoryLimitError("Memory limit exceeded")
                 obj.length = new_len
                 return
             # Strict array mode: reject non-integer indices
